@@ -283,7 +283,7 @@ pub fn run(ctx: &Ctx, model: &mut Model, rep: &mut Report) {
         }
     }
     let d17_open = known::is_open(ctx, "C18", "D17");
-    let n = if ctx.thorough { 3000 } else { 200 };
+    let n = if ctx.thorough { 3000 } else { 500 };
     for i in 0..n {
         let mut r = Rng::for_case(ctx.seed ^ 0xC18, i as u64);
         let big = i % 40 == 7;
